@@ -142,11 +142,11 @@ let run_file rtl f =
       w := w') ops;
   (* is this history inside the quantifier of the growth theorems (coq/PropFragment.v: classifiers with soundness proofs)?
      c02: a growing network in any order with writing observers, or a growing network (moves, rebinding, reset, destruction) for its
-     first k operations followed by observers and assignments only (k = just after the last operation that is not of that kind);
+     first k operations followed by observers - also writing ones of both signals - and assignments only (k = just after the last operation that is not of that kind);
      c06: a growing mixed network *)
   let only = List.filter_map (function `Op (o, _) -> Some o | _ -> None) ops in
   let n = List.length only in
-  let k = let rec go i last = function [] -> last | o :: r -> go (i + 1) (if act_opb o then last else i + 1) r in go 0 0 only in
+  let k = let rec go i last = function [] -> last | o :: r -> go (i + 1) (if act2_synb o then last else i + 1) r in go 0 0 only in
   Printf.printf "#frag c02=%d c06=%d n=%d\n" (if in_c02_fragment fn_std rtl fuel (nat_of_int k) only then 1 else 0)
     (if in_c06_fragment fn_std rtl fuel only then 1 else 0) n
 
